@@ -112,6 +112,23 @@ func (c *Cluster) serveFrame(addr string, s *Server, f *Frame, frameNo int, comp
 			}
 			return
 		}
+		if c.ScanHandler != nil {
+			// a stateful regionserver-side scanner implementation supplied by the harness
+			reg := c.ByName(req.GetRegion().GetValue())
+			if reg == nil || reg.Server != addr {
+				c.attempt(addr, string(req.GetRegion().GetValue()), "scan", ClsNSRE)
+				send(nil, &pb.ExceptionResponse{ExceptionClassName: proto.String(ClsNSRE), StackTrace: proto.String("not online")}, nil)
+				return
+			}
+			c.attempt(addr, string(req.GetRegion().GetValue()), "scan", "ok")
+			resp, cells, cls := c.ScanHandler(reg, req)
+			if cls != "" {
+				send(nil, &pb.ExceptionResponse{ExceptionClassName: proto.String(cls), StackTrace: proto.String("scan failed")}, nil)
+			} else {
+				send(resp, nil, cells)
+			}
+			return
+		}
 		r := c.ExecOp(addr, req.GetRegion().GetValue(), "scan", req.GetScan().GetStartRow(), ident(req.GetScan().GetStartRow()), frameNo)
 		switch {
 		case r.NoAnswer:
